@@ -716,7 +716,7 @@ impl Check for C11 {
     }
     fn components(&self) -> Value {
         json!({
-            "real": ["ripd::workspace_lock", "ripd::session (tool envelope path and agent loop path)", "ripd::tasks engine, pipes runner, cancellation", "ripd::server routes", "ripd::continuities (side-effects frames)", "rip-tools built-ins and bash subprocesses", "tokio runtime (current-thread or 3 workers, real time)"],
+            "real": ["ripd::workspace_lock", "ripd::session (tool envelope path and agent loop path)", "ripd::tasks engine, pipes runner, cancellation", "ripd::server routes", "ripd::continuities (side-effects frames)", "rip-tools built-ins and bash subprocesses", "checkpoint create / rewind commands (session checkpoint path, rip-tools runner, ripd checkpoint hook, rip-workspace)", "tokio runtime (current-thread or 3 workers, real time)"],
             "stubbed": ["the provider (scripted stub, per-run scripts)", "daemon HTTP listener (tower oneshot)"],
             "simulated": ["holds at the guarded emitter scheduling points decided by the seed", "libc seam in monitor mode stamps in-process workspace mutations"]
         })
